@@ -11,7 +11,7 @@ import os
 
 from verifkit import Infra, read_ndjson, write_ndjson
 
-STARTS = {"AStart", "BStart", "SStart", "Conn", "SyncEnd", "Note", "GReset"}
+STARTS = {"AStart", "LStart", "BStart", "SStart", "Conn", "SyncEnd", "Note", "GReset"}
 MAX_REJECTIONS = 8
 
 
@@ -42,6 +42,29 @@ def judge_ancestor(case):
 
 def better(a, b):
     return a["score"] > b["score"] or (a["score"] == b["score"] and a["ord"] < b["ord"])
+
+
+def judge_liar(case):
+    """A peer lying about its ids during the ancestor search, honest blocks afterwards."""
+    end = case[-1]
+    if end["e"] == "LResult":
+        if not end["same"]:
+            return False, "a failed ancestor search against a lying peer changed the store"
+        return True, "search failed, nothing touched"
+    k = [i for i, e in enumerate(case) if e["e"] == "BStartL"]
+    if not k or end["e"] != "BEnd":
+        return False, "no end recorded"
+    st = case[k[0]]
+    if end["status"] in ("panic", "hang"):
+        return False, "real code %s: %s" % (end["status"], end.get("err"))
+    if not end["digestOK"]:
+        return False, "store differs from local store + imported prefix of the peer's valid chain"
+    local = {b["id"]: b for b in st["local"]}
+    served = {b["id"]: b for e in case if e["e"] == "Fetch" for b in e.get("bs", [])}
+    best = served.get(end["best"]) or local.get(end["best"])
+    if best is None or better(local[st["best"]], best):
+        return False, "best regressed to %s" % end["best"]
+    return True, "store and best right"
 
 
 def judge_download(case):
@@ -172,6 +195,8 @@ def judge(case, off=None):
         return judge_ancestor(case)
     if k in ("BStart", "SStart"):
         return judge_download(case)
+    if k == "LStart":
+        return judge_liar(case)
     if k == "Conn":
         return judge_msg(case)
     if k == "SyncEnd":
@@ -185,7 +210,7 @@ def case_label(case):
         return "gossip run " + str(h.get("case"))
     if h["e"] == "AStart":
         return "ancestor H=%d A=%d R=%d" % (h["H"], h["A"], h["R"])
-    if h["e"] in ("BStart", "SStart"):
+    if h["e"] in ("BStart", "SStart", "LStart"):
         return "download " + h["case"]
     if h["e"] == "Conn" and len(case) > 1:
         m = case[1]
@@ -210,6 +235,8 @@ def signature(case, why):
         return "download-hangs:" + ("handler-error-with-full-pipeline" if kind == "flood" else kind)
     if h["e"] == "SStart":
         return "stream:" + str(case[-1].get("status"))
+    if h["e"] == "LStart":
+        return "download-liar:%s:%s" % (h["case"].split("/")[2].split("@")[0], case[-1].get("status", case[-1].get("err", ""))[:40])
     if h["e"] == "BStart":
         parts = h["case"].split("/")
         return "download:%s:%s" % (parts[2].split("@")[0] if len(parts) > 2 else "?", case[-1].get("status"))
